@@ -82,7 +82,8 @@ fn main() {
             let tier = Tier::parse(tier).expect("tier");
             let (i, n): (usize, usize) = (i.parse().expect("i"), n.parse().expect("n"));
             vharness::sim::pin_to_core(i % checks::cores());
-            let p = (def.run)(tier, i, n, seed());
+            let mut p = (def.run)(tier, i, n, seed());
+            p.gauge_max("max_steps_in_one_world", vharness::sim::MAX_STEPS_IN_ONE_WORLD.load(std::sync::atomic::Ordering::SeqCst));
             std::fs::write(out, serde_json::to_string(&p.to_json()).expect("json")).expect("write");
         }
         ["--replay", id, file] => {
